@@ -266,6 +266,8 @@ def body(data) -> Outcome:
                     out.fail(f"{where}-load_outputs-raised:{v['error'].split(':')[0]}", f"{o}: {v['error']}")
                 elif v != mp.canon(ref[o]):
                     out.fail(f"{where}-load_outputs-differs", f"{o}: got {str(v)[:200]} want {str(mp.canon(ref[o]))[:200]}")
+            for o, v in got.get("reload_after_mutation", {}).items():
+                out.fail(f"{where}-second-load-sees-the-caller's-changes-to-the-first", f"{o}: {str(v)[:200]}")
             if "run_info_error" in got:
                 out.fail(f"{where}-RunInfo.load-raised:{got['run_info_error'].split(':')[0]}", got["run_info_error"])
             else:
@@ -335,7 +337,19 @@ def _load_here(folder, names, use_xarray, roots=None) -> dict:
     got: dict = {"loaded": {}}
     for o in names:
         try:
-            got["loaded"][o] = mp.canon(load_outputs(o, run_folder=folder))
+            first = load_outputs(o, run_folder=folder)
+            got["loaded"][o] = mp.canon(first)
+            # what a caller does with a loaded value must not leak into the next load of the untouched folder
+            try:
+                if isinstance(first, list) and first:
+                    first[0] = "MUTATED-BY-THE-CALLER"
+                elif isinstance(first, np.ndarray) and first.size and first.flags.writeable:
+                    first.flat[0] = "MUTATED-BY-THE-CALLER"
+            except Exception:  # noqa: BLE001
+                pass
+            again = mp.canon(load_outputs(o, run_folder=folder))
+            if again != got["loaded"][o]:
+                got.setdefault("reload_after_mutation", {})[o] = again
         except Exception as e:
             got["loaded"][o] = {"error": f"{type(e).__name__}: {str(e)[:200]}"}
     try:
